@@ -365,6 +365,16 @@ func resBytes(pan bool, err error, v func() []byte) string {
 	return vh.Ok(pk(v()))
 }
 
+func outcome(op string, pan bool, err error) string {
+	switch {
+	case pan:
+		return "outcome/" + op + "/panic"
+	case err != nil:
+		return "outcome/" + op + "/reject"
+	}
+	return "outcome/" + op + "/accept"
+}
+
 func run(c *vh.Ctx, cs Case) {
 	extra := unhex(cs.Extra)
 	term := ""
@@ -383,6 +393,7 @@ func run(c *vh.Ctx, cs Case) {
 				resBytes(pan, err, func() []byte { return nodeProj(cn) }))
 		}
 		c.Case("node:"+cs.Kind, caseKey(cs), len(extra) == entrySize, cs, term)
+		c.Count(outcome("node", pan, err))
 		if pan {
 			c.Fail("node-panic", "parseCustodianNode panicked", cs)
 		}
@@ -420,6 +431,7 @@ func run(c *vh.Ctx, cs Case) {
 		}
 		ents, shaped := decode(extra)
 		c.Case("parse:"+cs.Kind, caseKey(cs), shaped && len(ents) >= 7, cs, term)
+		c.Count(outcome("parse", pan, err))
 		if pan {
 			c.Fail("parse-panic", "ParseCustodianUpdateNodesExtra panicked", cs)
 		}
@@ -455,6 +467,7 @@ func run(c *vh.Ctx, cs Case) {
 		var perr error
 		ppan, _ := vh.Catch(func() { req, perr = common.ParseCustodianUpdateNodesExtra(extra, false) })
 		c.Case("validate:"+cs.Kind, caseKey(cs), !ppan && perr == nil && len(cs.Outs) == 1, cs, term)
+		c.Count(outcome("validate", pan, err))
 		if !accepted {
 			return
 		}
